@@ -3,10 +3,11 @@ package main
 // Path exploration driver: decisions, path condition, obligations, solver portfolio.
 
 import (
-	"runtime/debug"
+	"crypto/sha256"
 	"fmt"
 	"math/big"
 	"os"
+	"runtime/debug"
 	"sort"
 	"strings"
 	"sync"
@@ -735,6 +736,10 @@ func (r *HarnessRun) check(e *Exec, kind, label string, cond *Term) {
 		// witness already violates
 		o.Sat++
 		r.addFinding(kind, label, pos, r.witness)
+	} else if pm := r.probe(nc); pm != nil {
+		// a concrete probe valuation satisfies the path condition and violates the condition
+		o.Sat++
+		r.addFinding(kind, label, pos, pm)
 	} else if kind == "assert" && !r.opts.SyncAsserts {
 		p := r.prepare([]*Term{nc}, true)
 		if p.trivial != nil {
@@ -1375,4 +1380,69 @@ func (r *HarnessRun) finishCheck(kind, label, pos string, o *OblStat, nc *Term, 
 		r.incon = append(r.incon, fmt.Sprintf("%s %q at %s: solver %s", kind, label, pos, res.Status))
 	}
 	return false
+}
+
+// probe: cheap sat-side accelerator.  Evaluates (pc ∧ nc) under a few fixed valuations of the
+// input variables (all zero, all ones, two pseudo-random ones); returns a valuation under which it
+// holds.  A hit is an ordinary counterexample (it is replayed like a solver model); a miss says
+// nothing and the query goes to the solver.
+func (r *HarnessRun) probe(nc *Term) (m map[string]*big.Int) {
+	if r.opts.Backend != "bv" && r.opts.Backend != "" {
+		return nil
+	}
+	roots := append(append([]*Term{}, r.pc...), nc)
+	vars := map[string]*Term{}
+	seen := map[int]bool{}
+	for _, t := range roots {
+		termVars(t, seen, vars)
+	}
+	if len(vars) == 0 || len(vars) > 4096 {
+		return nil
+	}
+	defer func() {
+		if rec := recover(); rec != nil {
+			m = nil // uninterpreted functions etc.: cannot evaluate
+		}
+	}()
+	for salt := 0; salt < 4; salt++ {
+		env := make(map[string]*big.Int, len(vars))
+		for n, t := range vars {
+			if t.S <= 0 && t.S != SBool {
+				return nil
+			}
+			w := int(t.S)
+			if t.S == SBool {
+				w = 1
+			}
+			var v *big.Int
+			switch salt {
+			case 0:
+				v = big.NewInt(0)
+			case 1:
+				v = maskW(w)
+			default:
+				h := sha256.Sum256([]byte(fmt.Sprintf("%d|%s", salt, n)))
+				v = new(big.Int).SetBytes(h[:])
+				for v.BitLen() < w {
+					v.Lsh(v, 256)
+					v.Or(v, new(big.Int).SetBytes(h[:]))
+				}
+				v.And(v, maskW(w))
+			}
+			env[n] = v
+		}
+		memo := map[int]*big.Int{}
+		ok := true
+		for _, t := range roots {
+			if r.b.Eval(t, env, memo).Sign() == 0 {
+				ok = false
+				break
+			}
+		}
+		if ok {
+			r.note("counterexample found by concrete probe valuation")
+			return env
+		}
+	}
+	return nil
 }
